@@ -487,7 +487,7 @@ func TestVerif_C41(t *testing.T) {
 		"deadline oracle (thread last found blocked at <= start+timeout) is evaluated in the executions that contain no timer-first deviation (recognised conservatively: a scheduling choice that took the last, cost-1 alternative counts as one); with such a deviation virtual time passes while threads are runnable and a later legitimate wait is indistinguishable from oversleeping",
 		"tcpAddrsCleanInterval raised to 1 h so that the cache cleaner's ticker does not multiply schedules (the cleaner is outside the statement)",
 		"a resolver that is cut off by the dial deadline makes the dial return the context error unwrapped: outside the statement (it speaks about dialing), recorded as outcome class only")
-	b := vrt.Pick(r, 2, 3)
+	b, B := 2, vrt.Pick(r, 2, 3) // B: the smaller systems get one more deviation in the thorough tier
 	sec := time.Second
 	one := map[string]c41host{"h": {ips: []string{"10.0.0.1"}}}
 	two := map[string]c41host{"h": {ips: []string{"10.0.0.1", "10.0.0.2"}}}
@@ -500,7 +500,7 @@ func TestVerif_C41(t *testing.T) {
 	// ordered small to large: scenario i runs in worker process i mod 16, the no-timer-first twins appended below share
 	// the workers of the first entries
 	scns := []*c41scn{
-		{name: "conc2/cache-1s-redial-after-2s", bound: b, conc: 2, hosts: two, eps: map[string]c41ep{"10.0.0.1": c41refuse, "10.0.0.2": c41accept}, cacheFor: sec,
+		{name: "conc2/cache-1s-redial-after-2s", bound: B, conc: 2, hosts: two, eps: map[string]c41ep{"10.0.0.1": c41refuse, "10.0.0.2": c41accept}, cacheFor: sec,
 			threads: [][]c41d{{dto("h", sec), at(2*sec, dto("h", sec))}, {at(2*sec, dds("h", sec))}}},
 		{name: "conc1/resolver-slow-1s", bound: b, conc: 1, hosts: map[string]c41host{"h": {ips: []string{"10.0.0.1", "10.0.0.2"}, mode: c41resSlow}}, eps: map[string]c41ep{"10.0.0.1": c41accept, "10.0.0.2": c41hang},
 			threads: [][]c41d{{dto("h", 2*sec)}, {dto("h", 500*time.Millisecond)}, {at(1500*time.Millisecond, dto("h", sec))}}},
@@ -522,7 +522,7 @@ func TestVerif_C41(t *testing.T) {
 			threads: [][]c41d{{dto("h", 1500*time.Millisecond)}, {dto("h", 2500*time.Millisecond)}, {dial("h")}}},
 		{name: "conc1/2addrs-refuse-slow", bound: b, conc: 1, hosts: two, eps: map[string]c41ep{"10.0.0.2": c41slow}, slowBy: sec,
 			threads: [][]c41d{{dto("h", 3*sec)}, {dto("h", 2*sec)}, {dto("h", 1500*time.Millisecond)}}},
-		{name: "conc1/sequential-rotation-3addrs", bound: b, conc: 1, hosts: map[string]c41host{"h": three["h"], "g": {ips: []string{"10.0.1.1"}}},
+		{name: "conc1/sequential-rotation-3addrs", bound: B, conc: 1, hosts: map[string]c41host{"h": three["h"], "g": {ips: []string{"10.0.1.1"}}},
 			eps: map[string]c41ep{"10.0.0.1": c41accept, "10.0.0.2": c41accept, "10.0.0.3": c41accept, "10.0.1.1": c41accept},
 			threads: [][]c41d{{dial("h"), dial("h"), dial("h"), dial("h")}, {dto("g", sec)}}},
 		{name: "conc1/1addr-hang/timeouts-1s-2s-3s", bound: b, conc: 1, hosts: one, eps: map[string]c41ep{"10.0.0.1": c41hang},
@@ -544,7 +544,10 @@ func TestVerif_C41(t *testing.T) {
 		}
 		if hangs {
 			c := *s
-			c.name, c.noTF, c.bound = "no-timer-first/"+s.name, true, b
+			c.name, c.noTF, c.bound = "no-timer-first/"+s.name, true, B
+			if s.conc == 2 && len(s.hosts["h"].ips) == 1 || strings.Contains(s.name, "refuse-slow") {
+				c.bound = b // the two widest twins stay at the quick bound
+			}
 			twins = append([]*c41scn{&c}, twins...) // largest first: it gets the one free worker
 		}
 	}
@@ -553,6 +556,6 @@ func TestVerif_C41(t *testing.T) {
 	for _, s := range scns {
 		scs = append(scs, mcx.Scenario{Name: s.name, Cfg: mcrt.Config{Bound: s.bound, TimerFirst: !s.noTF, Horizon: 4000}, Body: c41body(s), Check: c41check})
 	}
-	r.Set("preemption_bound", fmt.Sprint(b))
+	r.Set("preemption_bound", fmt.Sprintf("%d (smaller systems: %d)", b, B))
 	mcx.Run(r, scs)
 }
